@@ -26,18 +26,31 @@
 (* H*(k-1)+j; outputs are sequences of maximal position intervals (junk    *)
 (* bytes are the interval <<-1,-1>>, never merged).  f.buf is always a     *)
 (* tail of the last block: [k, off] = bytes off..H-1 of block k.           *)
+(* Memory: the reader's own arrays are region 0; the caller's buffers are   *)
+(* regions 1..NBufs (a Read names the region its p lives in, so the same   *)
+(* buffer can be passed again).  prevAt is the region f.prev's backing     *)
+(* array lives in.  Scribble(r) - the caller overwrites region r - turns   *)
+(* the chaining value into junk iff prevAt = r.  Design = "own" is the     *)
+(* code as it is (f.prev = Sum(f.prev[:0]): always region 0); Design =     *)
+(* "caller" is the variant that lets the MAC append a whole block straight *)
+(* into p (f.prev = Sum(p[:0]) when len(p) >= size, else Sum(nil)); it is  *)
+(* kept as a documented counterexample (HkdfImpl_MC_Alias.cfg must fail).  *)
 (* Refinement: HkdfImpl => HkdfReader under                                *)
 (*   produced = H * (blocks generated) - BufLen(buf).                      *)
 (***************************************************************************)
 EXTENDS Integers, Sequences
 
-CONSTANTS H, MaxBlocks, ReadSizes
+CONSTANTS H, MaxBlocks, ReadSizes,
+          NBufs,     \* number of caller-owned buffers (memory regions 1..NBufs)
+          Design     \* "own" (the code) or "caller" (Sum appends into the caller's slice)
 VARIABLES counter,   \* f.counter (a byte: 0..M-1)
           prev,      \* id of the block held in f.prev (0 = nil/empty, -1 = junk)
+          prevAt,    \* memory region holding f.prev (and f.buf, which aliases it): 0 = the reader's own
           buf,       \* f.buf: [k, off] = octets off..H-1 of block k (k = 0: empty slice)
           dirty,     \* the expander has absorbed data since it was created or Reset
           last
-ivars == <<counter, prev, buf, dirty, last>>
+ivars == <<counter, prev, prevAt, buf, dirty, last>>
+rstate == <<counter, prev, prevAt, buf, dirty>>      \* the reader's state proper
 
 M == MaxBlocks + 1
 Min(a, b) == IF a < b THEN a ELSE b
@@ -50,7 +63,7 @@ Emit(out, pc) ==
   THEN [out EXCEPT ![Len(out)] = <<out[Len(out)][1], pc[2]>>]
   ELSE Append(out, pc)
 
-\* one pass of the for loop; st = [counter, prev, buf, dirty, out, rem, n]
+\* one pass of the for loop; st = [counter, prev, prevAt, buf, dirty, out, rem, n, r] (r = region of p)
 RECURSIVE Loop(_)
 Loop(st) ==
   IF st.rem = 0 THEN st
@@ -60,27 +73,40 @@ Loop(st) ==
            n == Min(st.rem, H)                                       \* f.buf = f.prev; n = copy(p, f.buf)
        IN Loop([counter |-> (st.counter + 1) % M,                    \* f.counter++ (byte)
                 prev |-> k, buf |-> [k |-> k, off |-> 0], dirty |-> TRUE,
-                out |-> Emit(st.out, Piece(k, 0, n)), rem |-> st.rem - n, n |-> n])
+                \* f.prev = Sum(f.prev[:0]) | variant: Sum(p[:0]) if len(p) >= size else Sum(nil)
+                prevAt |-> IF Design = "caller" /\ st.rem >= H THEN st.r ELSE 0,
+                out |-> Emit(st.out, Piece(k, 0, n)), rem |-> st.rem - n, n |-> n, r |-> st.r])
 
-Init == /\ counter = 1 /\ prev = 0 /\ buf = [k |-> 0, off |-> 0] /\ dirty = FALSE
+Init == /\ counter = 1 /\ prev = 0 /\ prevAt = 0 /\ buf = [k |-> 0, off |-> 0] /\ dirty = FALSE
         /\ last = [op |-> "new", n |-> 0, err |-> FALSE, out |-> <<>>]
 
-Read(need) ==
+\* Read(p) with len(p) = need and p in caller region r
+Read(need, r) ==
   LET remains == BufLen(buf) + ((MaxBlocks - counter + 1) % M) * H IN   \* int(255-f.counter+1)*f.size, byte wrap
   IF remains < need
   THEN /\ last' = [op |-> "read", n |-> need, err |-> TRUE, out |-> <<>>]
-       /\ UNCHANGED <<counter, prev, buf, dirty>>
+       /\ UNCHANGED rstate
   ELSE LET n0 == Min(need, BufLen(buf)) IN                          \* n := copy(p, f.buf)
        \* (a singleton \E rather than a LET: TLC then evaluates the loop once per step)
-       \E fin \in {Loop([counter |-> counter, prev |-> prev, buf |-> buf, dirty |-> dirty,
+       \* copying the leftover into p would overwrite f.prev if it lived in the same region
+       \E fin \in {Loop([counter |-> counter, prev |-> IF n0 > 0 /\ prevAt = r /\ r # 0 THEN -1 ELSE prev,
+                        prevAt |-> prevAt, buf |-> buf, dirty |-> dirty,
                         out |-> IF n0 = 0 THEN <<>> ELSE <<Piece(buf.k, buf.off, n0)>>,
-                        rem |-> need - n0, n |-> n0])} :
+                        rem |-> need - n0, n |-> n0, r |-> r])} :
        LET nb == [k |-> fin.buf.k, off |-> fin.buf.off + fin.n]       \* f.buf = f.buf[n:]
-       IN /\ counter' = fin.counter /\ prev' = fin.prev /\ dirty' = fin.dirty
+       IN /\ counter' = fin.counter /\ prev' = fin.prev /\ prevAt' = fin.prevAt /\ dirty' = fin.dirty
           /\ buf' = IF nb.k # 0 /\ nb.off >= H THEN [k |-> 0, off |-> 0] ELSE nb    \* empty slice
           /\ last' = [op |-> "read", n |-> need, err |-> FALSE, out |-> fin.out]
 
-Next == \E n \in ReadSizes : Read(n)
+\* the caller overwrites its buffer r: the reader's fields do not change, but whatever of the
+\* reader's state lives in region r is now junk
+Scribble(r) ==
+  /\ prev' = IF prevAt = r THEN -1 ELSE prev
+  /\ buf' = IF prevAt = r /\ buf.k # 0 THEN [buf EXCEPT !.k = -1] ELSE buf
+  /\ UNCHANGED <<counter, prevAt, dirty>>
+  /\ last' = [op |-> "scribble", n |-> 0, err |-> FALSE, out |-> <<>>]
+
+Next == (\E n \in ReadSizes : \E r \in 1..NBufs : Read(n, r)) \/ (\E r \in 1..NBufs : Scribble(r))
 Spec == Init /\ [][Next]_ivars
 
 \* blocks generated so far: counter-1, or all MaxBlocks once the byte has wrapped to 0
@@ -91,6 +117,10 @@ AbsErrorConsumesNothing == Abs!ErrorConsumesNothing
 AbsContiguous == Abs!Contiguous
 AbsFailsExactlyBeyondLimit == Abs!FailsExactlyBeyondLimit
 AbsZeroReadIsNoop == Abs!ZeroReadIsNoop
+AbsScribbleIsInvisible == Abs!ScribbleIsInvisible
+\* the caller's writes never touch the reader's state: nothing of it lives in caller memory
+ScribbleKeepsReaderState == [][last'.op = "scribble" => UNCHANGED rstate]_ivars
+ReaderOwnsItsState == prevAt = 0
 
 TypeOK == /\ counter \in 0..MaxBlocks /\ BufLen(buf) \in 0..(H - 1) /\ Abs!TypeOK
 \* the bookkeeping invariant behind the refinement: buf is the unread tail of the last block, prev
